@@ -80,3 +80,6 @@ package req
 //@   ensures option == protocol.OptionFailNoPeers ==> isnil(result1) && result0 == iface(c.failNoPeers)
 //@
 // ---- end generated option contracts ----
+//@
+//@ func (*context).RecvMsg
+//@   ensures isnil(result1) ==> result0 != nil
